@@ -36,6 +36,8 @@ enum Stmt {
     Inc,
     CondSet(i64),
     CondCreate(i64),
+    /// MERGE (:Item {t: ..}): must find the node a concurrent statement just committed
+    MergeItem(i64),
     /// ndb_compact on the shared handle (no logical effect; a concurrent maintenance call)
     Compact,
 }
@@ -46,6 +48,7 @@ impl Stmt {
             Stmt::Inc => "MATCH (c:Ctr) SET c.v = c.v + 1".into(),
             Stmt::CondSet(t) => format!("MATCH (c:Ctr) WHERE c.v = 0 SET c.v = 1, c.w = {t}"),
             Stmt::CondCreate(t) => format!("MATCH (c:Ctr) WHERE c.v < 2 CREATE (:Item {{t: {t}}})"),
+            Stmt::MergeItem(t) => format!("MERGE (:Item {{t: {t}}})"),
             Stmt::Compact => "<ndb_compact>".into(),
         }
     }
@@ -63,6 +66,11 @@ impl Stmt {
                     st.2.push(*t);
                 }
             }
+            Stmt::MergeItem(t) => {
+                if !st.2.contains(t) {
+                    st.2.push(*t);
+                }
+            }
             Stmt::Compact => {}
         }
     }
@@ -71,6 +79,7 @@ impl Stmt {
             Stmt::Inc => "Inc",
             Stmt::CondSet(_) => "CondSet",
             Stmt::CondCreate(_) => "CondCreate",
+            Stmt::MergeItem(_) => "MergeItem",
             Stmt::Compact => "Compact",
         }
     }
@@ -105,7 +114,7 @@ fn serial_outcomes(progs: &[Vec<Stmt>], ok: &[Vec<bool>]) -> BTreeSet<(i64, i64,
 
 pub fn c09(tier: Tier) -> i32 {
     let rep = Report::new("C09", tier);
-    rep.rule("each harness = 2 (quick) or up to 3 (thorough) threads issuing 1-2 read-modify-write statements through ndb_execute_write on one shared node; ALL schedules with at most the stated number of preemptions are executed on the real code under the cooperative scheduler (points: every lock acquisition and every publication step of snapshot / begin_write / commit); oracle: the final (c.v, c.w, items) equals the result of some serial order of the statements that reported success; non-trivial = schedules with at least one preemption");
+    rep.rule("each harness = 2 (quick) or up to 3 (thorough) threads issuing 1-2 read-modify-write statements (increment, conditional set, conditional create, MERGE of one key) through ndb_execute_write on one shared graph; ALL schedules with at most the stated number of preemptions are executed on the real code under the cooperative scheduler (points: every lock acquisition and every publication step of snapshot / begin_write / commit); oracle: the final (c.v, c.w, items) equals the result of some serial order of the statements that reported success; non-trivial = schedules with at least one preemption");
     let configs: Vec<Vec<Vec<Stmt>>> = {
         let mut c = vec![
             vec![vec![Stmt::Inc], vec![Stmt::Inc]],
@@ -113,6 +122,8 @@ pub fn c09(tier: Tier) -> i32 {
             vec![vec![Stmt::Inc], vec![Stmt::CondCreate(2)]],
             vec![vec![Stmt::Inc, Stmt::Inc], vec![Stmt::Inc]],
             vec![vec![Stmt::Inc, Stmt::Inc], vec![Stmt::Compact]],
+            vec![vec![Stmt::MergeItem(7)], vec![Stmt::MergeItem(7)]],
+            vec![vec![Stmt::MergeItem(7), Stmt::Inc], vec![Stmt::MergeItem(7)]],
         ];
         if tier == Tier::Thorough {
             c.push(vec![vec![Stmt::Inc], vec![Stmt::Inc], vec![Stmt::Inc]]);
